@@ -29,13 +29,135 @@
 #include "scon.hh"
 #include "op.hh"
 
+#ifdef DWGREP_VERIF
+# include <cstdio>
+# include <cstdlib>
+# include <set>
+# include <string>
+
+unsigned long dwgrep_verif_tag = 0;
+
+extern "C" __attribute__ ((weak)) void
+dwgrep_verif_fail (char const *msg)
+{
+  std::fprintf (stderr, "DWGREP_VERIF scon: %s\n", msg);
+  std::abort ();
+}
+
+extern "C" __attribute__ ((weak)) int
+dwgrep_verif_poison (void)
+{
+  return 85;
+}
+
+extern "C" __attribute__ ((weak)) int
+dwgrep_verif_unusual (char const *site)
+{
+  return 0;
+}
+
+namespace
+{
+  std::set <scon *> &
+  verif_registry ()
+  {
+    static std::set <scon *> registry;
+    return registry;
+  }
+
+  void
+  verif_fail (char const *what, size_t loc, char const *type,
+	      char const *other = nullptr)
+  {
+    std::string msg = std::string (what) + ": offset "
+      + std::to_string (loc) + " type " + type;
+    if (other != nullptr)
+      msg += std::string (" vs ") + other;
+    dwgrep_verif_fail (msg.c_str ());
+  }
+}
+
+extern "C" long
+dwgrep_verif_live_scons (void)
+{
+  return static_cast <long> (verif_registry ().size ());
+}
+
+extern "C" void
+dwgrep_verif_census (void (*cb) (unsigned long, char const *, void *),
+		     void *data)
+{
+  for (auto sc: verif_registry ())
+    for (auto const &ent: sc->m_verif_live)
+      cb (sc->m_verif_tag, ent.second.m_type->name (), data);
+}
+#endif
+
 scon::scon (layout const &l)
   // 85 is 0b1010101, a pattern that's very unlikely to be valid data. If
   // op::state_con is not called, this is likely to cause a loud & early
   // failure. op_origin relies on this poisoning to detect that the state_con
   // chain is interrupted.
+#ifndef DWGREP_VERIF
   : m_buf (l.size (), 85)
 {}
+#else
+  : m_buf (l.size (), static_cast <uint8_t> (dwgrep_verif_poison ()))
+  , m_verif_tag {dwgrep_verif_tag}
+{
+  verif_registry ().insert (this);
+}
+
+scon::~scon ()
+{
+  for (auto const &ent: m_verif_live)
+    if (! ent.second.m_trivial)
+      verif_fail ("state still live when its scon is destroyed",
+		  ent.first, ent.second.m_type->name ());
+  verif_registry ().erase (this);
+}
+
+void
+scon::verif_con (size_t loc, size_t size, size_t align,
+		 std::type_info const &ti, bool trivial)
+{
+  if (loc + size > m_buf.size () || loc + size < loc)
+    verif_fail ("state constructed out of bounds", loc, ti.name ());
+
+  if (reinterpret_cast <uintptr_t> (m_buf.data () + loc) % align != 0)
+    verif_fail ("state constructed misaligned", loc, ti.name ());
+
+  // Look for a live extent that overlaps [loc, loc + size).
+  auto it = m_verif_live.lower_bound (loc);
+  if (it != m_verif_live.end () && it->first < loc + size)
+    verif_fail ("state constructed over a live state", loc, ti.name (),
+		it->second.m_type->name ());
+  if (it != m_verif_live.begin ())
+    {
+      --it;
+      if (it->first + it->second.m_size > loc)
+	verif_fail ("state constructed over a live state", loc, ti.name (),
+		    it->second.m_type->name ());
+    }
+
+  m_verif_live[loc] = verif_ent {size, &ti, trivial};
+}
+
+void
+scon::verif_use (size_t loc, std::type_info const &ti, bool des)
+{
+  auto it = m_verif_live.find (loc);
+  if (it == m_verif_live.end ())
+    verif_fail (des ? "destroying a state that is not live"
+		: "access to a state that is not live", loc, ti.name ());
+  else if (*it->second.m_type != ti)
+    verif_fail (des ? "destroying a state of different type"
+		: "access to a state of different type", loc, ti.name (),
+		it->second.m_type->name ());
+  else if (des)
+    m_verif_live.erase (it);
+}
+#endif
 
 scon_guard::scon_guard (scon_guard &&mv)
   : m_sc {mv.m_sc}
